@@ -90,6 +90,15 @@ CHECKS = {
         "bound_text": "statement trees of depth <= 1 (quick) / 2 (thorough) in 8 body positions; expression families in 16 embeddings; loops of 1 vs 140 (thorough 300) iterations in 5 loop shapes",
         "assumptions": [],
     },
+    "C10": {
+        "runs": [
+            {"harness": ["internal/vsess.VerifC10Ops"], "pkgs": ["./internal/vsess"], "fuel": 8000000,
+             "params_quick": {"vars": 2, "ops": 2}, "params_thorough": {"vars": 2, "ops": 3},
+             "covers": {"VerifC10Ops": ["done"]}},
+        ],
+        "bound_text": "sequences of 2 (quick) / 3 (thorough) operations from {extend by literal, slice with symbolic bounds, concatenate two variables, literal with constant prefix 3 or 5 evaluated again, computed literal, extend an array captured by a closure, nest, rebuild through a generator loop} over 2 variables initialised with a concatenation result, a computed literal and a string; every variable printed after every operation",
+        "assumptions": ["the engine's append follows runtime.growslice of the Go toolchain in use (size-class table ported; validated by native replay of sampled paths)"],
+    },
     "C11": {
         "runs": [
             {"harness": ["types/value." + h for h in C11_HARN], "pkgs": ["./types/value"], "cross": 7, "params_quick": {"maxlen": 1}, "params_thorough": {"maxlen": 2},
@@ -166,6 +175,7 @@ CHECKS = {
 }
 
 LEVEL_TEXT = {
+    "C10": "Operation sequences over variables that share structure are executed symbolically (indices and element values symbolic) next to the reference evaluator, which never shares storage; after each operation every variable is rendered on both sides. The engine models Go slices with their real capacity growth, so whether an append writes into an operand's spare capacity is decided as in the native build.",
     "C08": "Sessions are executed symbolically statement by statement next to the reference evaluator; whether and how the injected statement fails is decided by a solver variable (operand kind and value), so failing and non-failing runs of every placement are both explored; after the failure the machine state is read through accessors and every later statement must equal the reference in value, output and error.",
     "C02": "Differential symbolic execution against the reference evaluator (generators as internal iteration): generator definitions, compositions and consumers are enumerated by forking, yielded values are symbolic, generators write trace marks so that the compared output fixes the interleaving of generator and loop body; loop values, collected values and the session state afterwards are compared for all values.",
     "C03": "Each pure function is called first in a fresh session, then after a solver-chosen history and in a solver-chosen dynamic placement; every call is compared with the reference evaluator's result for symbolic arguments, so a result that depends on what ran before (stack growth, recycled contexts, stale frames) is a failed solver-decided assertion.",
